@@ -38,7 +38,16 @@ def main(argv):
         known = sum(1 for l in r.stdout.split('\n') if l.startswith('KNOWN-FINDING'))
         v = subprocess.run(['python3-vt', '-c', 'import json,jsonschema,sys; jsonschema.validate(json.load(open(sys.argv[1])), json.load(open("/root/.vp/EVIDENCE.schema.json")))', ev],
                            capture_output=True, text=True)
-        return pid, r.returncode, viol, known, v.returncode == 0, time.time() - t0, r.stdout[-600:] if r.returncode else ''
+        evok = v.returncode == 0
+        try:
+            e = json.load(open(ev))
+            c = e['coverage']
+            # what the acceptance run also requires of a proof-level record
+            evok = evok and e['level'] == 'proof' and c['obligations'] == c['discharged'] and c['obligations'] > 0 and bool(c['samples']) \
+                and e['property_id'] == pid
+        except Exception:
+            evok = False
+        return pid, r.returncode, viol, known, evok, time.time() - t0, r.stdout[-600:] if r.returncode else ''
 
     bad = 0
     with cf.ThreadPoolExecutor(max_workers=jobs) as ex:
